@@ -237,31 +237,32 @@ theorem no_overflow (hw : wfCall env c = true) (hg : allGenerated env c = true)
   rw [construct_ok w hg hok, w.final_ovf, ho]; rfl
 
 /-- **owner_ctor_called_once.** The constructor bodies entered are: the instance's own spec class,
-then every decorated class of its MRO, each exactly once, from the most basic upwards. -/
-theorem owner_ctor_called_once (hw : wfCall env c = true) (hg : allGenerated env c = true)
+then every decorated class of its MRO — hand-written constructors included — each exactly once, from
+the most basic upwards. -/
+theorem owner_ctor_called_once (hw : wfCall env c = true) (ht : topGenerated env c = true)
     (hok : construct env c pos kw = (s, none)) :
     ∃ k, instInfo env c = some k ∧
       ctorCalls s.trace = k.cdef.name :: k.cdef.mro.tail.reverse.filter (isSpec env) ∧
       ∀ p ∈ k.cdef.mro, isSpec env p = true → (ctorCalls s.trace).count p = 1 := by
   obtain ⟨k, im, w⟩ := wfCall_spec hw
-  refine ⟨k, w.hinst, ?_, ?_⟩
-  · rw [construct_ok w hg hok, w.final_ctorCalls]
-  · intro p hp hsp
-    rw [construct_ok w hg hok, w.final_ctorCalls]
-    have hnd : (k.cdef.name :: k.cdef.mro.tail.reverse.filter (isSpec env)).Nodup := by
-      rw [List.nodup_cons]
-      constructor
-      · intro hm
-        have := (List.mem_filter.1 hm).1
-        exact w.tail_ne (List.mem_reverse.1 this) rfl
-      · exact List.Nodup.sublist List.filter_sublist w.revNodup
-    rw [hnd.count]
-    have : p ∈ k.cdef.name :: k.cdef.mro.tail.reverse.filter (isSpec env) := by
-      rw [mro_eq_cons w.head] at hp
-      rcases List.mem_cons.1 hp with e | e
-      · rw [e]; exact List.mem_cons_self
-      · exact List.mem_cons_of_mem _ (List.mem_filter.2 ⟨List.mem_reverse.2 e, hsp⟩)
-    rw [if_pos this]
+  have hc := (construct_trace_any w ht hok).1
+  refine ⟨k, w.hinst, hc, ?_⟩
+  intro p hp hsp
+  rw [hc]
+  have hnd : (k.cdef.name :: k.cdef.mro.tail.reverse.filter (isSpec env)).Nodup := by
+    rw [List.nodup_cons]
+    constructor
+    · intro hm
+      have := (List.mem_filter.1 hm).1
+      exact w.tail_ne (List.mem_reverse.1 this) rfl
+    · exact List.Nodup.sublist List.filter_sublist w.revNodup
+  rw [hnd.count]
+  have : p ∈ k.cdef.name :: k.cdef.mro.tail.reverse.filter (isSpec env) := by
+    rw [mro_eq_cons w.head] at hp
+    rcases List.mem_cons.1 hp with e | e
+    · rw [e]; exact List.mem_cons_self
+    · exact List.mem_cons_of_mem _ (List.mem_filter.2 ⟨List.mem_reverse.2 e, hsp⟩)
+  rw [if_pos this]
 
 /-- **each_attr_assigned_once (generated constructors).** No attribute is written twice, and an
 init-enabled attribute is written iff it ends up in the instance. -/
@@ -320,14 +321,14 @@ theorem each_attr_assigned_once (hw : wfCall env c = true) (hg : allGenerated en
       simp [e] at h
 
 /-- **post_init_once_last.** `__post_init__` — the nearest one along the MRO of the instance's class
-(`postOf`) — runs exactly once, as the very last step; without one nothing of the kind runs. -/
-theorem post_init_once_last (hw : wfCall env c = true) (hg : allGenerated env c = true)
-    (him : instMeta env c = some im) (hok : construct env c pos kw = (s, none)) :
+(`postOf`) — runs exactly once, as the very last step (hand-written parent constructors included);
+without one nothing of the kind runs. -/
+theorem post_init_once_last (hw : wfCall env c = true) (ht : topGenerated env c = true)
+    (hok : construct env c pos kw = (s, none)) :
     postCalls s.trace = (postOf env (mroOf env.classes c)).toList ∧
     ∀ pc, postOf env (mroOf env.classes c) = some pc → s.trace.getLast? = some (.post pc) := by
-  obtain ⟨k, w⟩ := wf_meta hw him
-  rw [construct_ok w hg hok]
-  exact ⟨w.final_postCalls _, fun pc hp => w.final_last_post _ pc hp⟩
+  obtain ⟨k, im, w⟩ := wfCall_spec hw
+  exact (construct_trace_any w ht hok).2
 
 /-! ## Non-vacuity and the open findings -/
 
